@@ -7,9 +7,14 @@ W=$(mktemp -d /tmp/vfseed.XXXXXX)
 git -C /repo worktree add -q --detach "$W/r" HEAD || exit 2
 res() { echo "SEED $ID $(basename $D): $*"; }
 if ! git -C "$W/r" apply "$D/patch.diff" 2>/dev/null; then res "PATCH-DOES-NOT-APPLY"; git -C /repo worktree remove --force "$W/r"; rm -rf "$W"; exit 3; fi
+if [ -n "$SEEDCHECK_SKIP_CONFIRM" ]; then
+  # (re-runs of already confirmed seeds: only the check is exercised)
+  T=tests-skipped; DW=-; DO=-
+else
 (cd "$W/r" && PYTHONPATH="$W/r" /venv/bin/python -m pytest -q -p no:cacheprovider >/dev/null 2>&1) && T=tests-pass || T=TESTS-FAIL
 (cd /tmp && PYTHONPATH="$W/r" timeout 120 /venv/bin/python "$D/demo.py" >/dev/null 2>&1); DW=$?
 (cd /tmp && PYTHONPATH=/repo timeout 120 /venv/bin/python "$D/demo.py" >/dev/null 2>&1); DO=$?
+fi
 out=""
 for c in $ID "$@"; do
   # first without the ambient sub-passes (fast); with them only if that run stays green
